@@ -55,10 +55,13 @@ def main():
                 os.remove(demo_dst)
             t0 = time.time()
             e = dict(ENV, VERIF_REPO=wt)
+            e.update(meta.get("check_env") or {})  # e.g. skip unrelated sub-checks of a thorough run
+            mtier = meta.get("tier", tier)
+            res["tier"] = mtier
             checks = meta.get("checks") or [meta["property"]]
             res["checks"] = {}
             for pid in checks:
-                rc, out = sh("./check %s --tier %s" % (pid, tier), cwd=VERIF, env=e, timeout=7200)
+                rc, out = sh("./check %s --tier %s" % (pid, mtier), cwd=VERIF, env=e, timeout=14400)
                 sigs = [l.strip() for l in out.splitlines() if l.strip().startswith("sub=")]
                 res["checks"][pid] = dict(exit=rc, detected=(rc == 1), signatures=sigs[:6])
             res["detected"] = any(c["detected"] for c in res["checks"].values())
